@@ -411,3 +411,91 @@ def pattern_histories() -> List[List[Any]]:
     # delete and recreate in the same patch, then across
     H.append([["grp", ["a"]], ["bnd"], ["del", ["a"]], ["grp", ["a"]], ["del", ["a"]], ["set", ["a"], "i:1"], ["bnd"], ["del", ["a"]], ["bnd"], ["grp", ["a", "a"]]])
     return H
+
+
+# ---------------------------------------------------------------------------- synthetic raw stacks
+
+def gen_raw_stack(rng: random.Random, keys=None, attr_keys=None, maxc=5) -> List[List[Any]]:
+    """Containers generated directly in the raw representation of the model (oldest first; each a
+    sorted list of [path, "G", "T"/"F"] / [path, "D", val] / [path, "DEL"], attributes as a last
+    segment "@k").  Every container is a well-formed single HDF5 file (parents of its entries are
+    groups of the same container); across containers anything goes, so that stacks violating the
+    write path's invariant (virtual groups over markers or datasets, markers over nothing, ...)
+    occur as well as well-behaved ones."""
+    keys = keys or KEYS[:3]
+    attr_keys = attr_keys or ATTR_KEYS[:2]
+    conts = []
+    for ci in range(rng.randint(1, maxc)):
+        c: Dict[Tuple[str, ...], List[Any]] = {}
+        for _ in range(rng.randint(0, 6)):
+            depth = rng.choice([1, 1, 2, 2, 3])
+            p = tuple(rng.choice(keys) for _ in range(depth))
+            ok = True
+            for i in range(1, depth):
+                e = c.get(p[:i])
+                if e is None:
+                    c[p[:i]] = ["G", "F" if (ci == 0 or rng.random() < 0.75) else "T"]
+                elif e[0] != "G":
+                    ok = False
+                    break
+            if not ok or p in c:
+                continue
+            r = rng.random()
+            if r < 0.30:
+                c[p] = ["D", rng.choice(VALUE_POOL[:6])]
+            elif r < 0.50 and ci > 0:
+                c[p] = ["DEL"]
+            elif r < 0.72:
+                c[p] = ["G", "T"]
+            else:
+                c[p] = ["G", "F"]
+        for holder in [()] + [p for p, e in c.items() if e[0] != "DEL"]:
+            if rng.random() < 0.3:
+                k = rng.choice(attr_keys)
+                c[holder + ("@" + k,)] = ["D", rng.choice(VALUE_POOL[:6])] if (ci == 0 or rng.random() < 0.65) else ["DEL"]
+        conts.append(sorted([[list(p)] + e for p, e in c.items()], key=lambda x: x[0]))
+    return conts
+
+
+def exec_raw_stack(conts, op_timeout=30) -> Dict[str, Any]:
+    """Write the containers with raw h5py calls into the (uncommitted) newest container file of
+    a real IH5Record, committing between them, then read the record through the overlay."""
+    import h5py
+    import numpy as np
+    from metador_core.ih5.container import IH5Record
+    DEL = np.void(b"\x7f")
+    with vlib.workdir("ih5raw") as d:
+        rec = IH5Record(d / "rec", "w")
+        try:
+            for i, cont in enumerate(conts):
+                if i > 0:
+                    rec.commit_patch()
+                    rec.create_patch()
+                f = rec.__files__[-1]
+                for e in sorted(cont, key=lambda e: len(e[0])):
+                    path, kind = e[0], e[1]
+                    if path[-1].startswith("@"):
+                        node = f["/" + "/".join(path[:-1])] if len(path) > 1 else f
+                        node.attrs[path[-1][1:]] = DEL if kind == "DEL" else dec(e[2])
+                    elif kind == "G":
+                        g = f.create_group("/" + "/".join(path))
+                        if e[2] == "T":
+                            g.attrs[SUBST_KEY] = h5py.Empty(None)
+                    else:
+                        f["/" + "/".join(path)] = DEL if kind == "DEL" else dec(e[2])
+            try:
+                with hard_time_limit(op_timeout):
+                    view = dump_view(rec)
+            except vlib.CaseTimeout:
+                view = ["READ-TIMEOUT"]
+            except Exception as e:  # noqa: BLE001
+                view = ["READ-ERROR", f"{type(e).__name__}: {e}"[:200]]
+            files = list(rec.ih5_files)
+            rec.close()
+            raw = [dump_raw(f) for f in files]
+        finally:
+            try:
+                rec.close()
+            except Exception:  # noqa: BLE001
+                pass
+    return {"view": view, "raw": raw}
